@@ -452,6 +452,28 @@ theorem Rng64.onStream_roll (seed : UInt64) (n fuel : Nat) : ∀ (r : Rng64) (k 
     · obtain ⟨k', h1, h2, h3⟩ := ih _ (k + 1) v r' hs' h
       exact ⟨k', by omega, by omega, h3⟩
 
+/-- `esl_rnd_Deal` (a sequence of `esl_random` draws) leaves the generator on the stream of its seed -/
+theorem Rng.onStream_dealLoop (seed : UInt32) (n m fuel : Nat) : ∀ (j i : Nat) (r : Rng) (acc : List Nat) (k : Nat), r.OnStream seed k →
+    ∃ k', k ≤ k' ∧ (dealLoop n m j i r acc fuel).2.OnStream seed k' := by
+  induction fuel with
+  | zero => intro j i r acc k h; exact ⟨k, Nat.le_refl _, h⟩
+  | succ f ih =>
+    intro j i r acc k h
+    simp only [dealLoop]
+    split
+    · have hr : r.randomNum = ((r.next).1.toNat, (r.next).2) := rfl
+      have hs' := Rng.onStream_next r seed k h
+      simp only [hr]
+      split
+      · obtain ⟨k', h1, h2⟩ := ih (j + 1) (i + 1) _ (j :: acc) (k + 1) hs'
+        exact ⟨k', by omega, h2⟩
+      · obtain ⟨k', h1, h2⟩ := ih (j + 1) i _ acc (k + 1) hs'
+        exact ⟨k', by omega, h2⟩
+    · exact ⟨k, Nat.le_refl _, h⟩
+
+theorem Rng.onStream_deal (seed : UInt32) (r : Rng) (k : Nat) (h : r.OnStream seed k) (m n : Nat) :
+    ∃ k', k ≤ k' ∧ (r.deal m n).2.OnStream seed k' := Rng.onStream_dealLoop seed n m (n + 1) 0 0 r [] k h
+
 theorem Rng64.roll_lt (n fuel : Nat) : ∀ (r : Rng64) (v : Nat) (r' : Rng64), r.roll n fuel = some (v, r') → v < n := by
   induction fuel with
   | zero => intro r v r' h; simp [Rng64.roll] at h
